@@ -411,6 +411,9 @@ var zzLen = 1
 // zzDepth bounds recursion through optional self references.
 var zzDepth = 1
 
+// zzPresenceBudget: symbolic presence decisions per value in the perturbation harnesses.
+var zzPresenceBudget = 4
+
 // ---------------------------------------------------------------------------------------------
 // perturbed encodings
 
@@ -569,6 +572,35 @@ func (f *zzFixedLeaves) Choose(_ string, n int) int   { return int(f.next() % ui
 func (f *zzFixedLeaves) Assume(c bool)                {}
 
 var zzL zzLeaves = zzSymLeaves{}
+
+// zzBudgetLeaves: symbolic leaves, but only the first k presence decisions ("set") are decision
+// variables; the following ones alternate. Used by the harnesses that perturb an encoding
+// (unknown / retagged / missing field), where presence x position x wire type would otherwise
+// multiply.
+type zzBudgetLeaves struct {
+	zzSymLeaves
+	k, n int
+}
+
+func (b *zzBudgetLeaves) Bool(name string) bool {
+	if name != "set" {
+		return zzrt.Bool(name)
+	}
+	if b.k > 0 {
+		b.k--
+		return zzrt.Bool(name)
+	}
+	b.n++
+	return b.n%2 == 1
+}
+
+// zzWithPresenceBudget runs f with at most k symbolic presence decisions.
+func zzWithPresenceBudget(k int, f func()) {
+	saved := zzL
+	zzL = &zzBudgetLeaves{k: k}
+	defer func() { zzL = saved }()
+	f()
+}
 
 const zzHexDigits = "0123456789abcdef"
 
